@@ -61,8 +61,12 @@ def main():
         if a.suite:
             rc, o, e = sh("/venv/bin/python -m pytest -q -p no:cacheprovider --timeout=900 -x tests 2>&1 | tail -3", cwd=repo, env=env)
             res["suite_tail"] = o.strip().splitlines()[-1:] if o.strip() else []
+        # private copy of the lean project (extractors rewrite Operon/Gen): the shared one stays clean
+        lean_copy = os.path.join(tmp, "lean")
+        sh(f"cp -r {os.path.join(VERIF, 'lean')} {lean_copy}")
         rc, o, e = sh(f"./check {prop} --tier {a.tier}", cwd=VERIF,
-                      env={"OPERON_REPO": repo, "VERIF_OUT": out, "VERIF_SEED": a.seed}, timeout=3000)
+                      env={"OPERON_REPO": repo, "VERIF_OUT": out, "VERIF_SEED": a.seed, "VERIF_LEAN": lean_copy},
+                      timeout=3000)
         res["check_rc"] = rc
         res["check_lines"] = [l for l in o.splitlines() if l.startswith(("VIOLATION", "KNOWN", "["))]
         if rc == 2:
